@@ -18,6 +18,8 @@ class Interner:
         self.ids = {}
 
     def __call__(self, key):
+        if isinstance(key, (dict, list)):       # not the text it should be: still a value of its own, different from every text
+            key = ("not text", json.dumps(key, sort_keys=True, default=str))
         if key not in self.ids:
             self.ids[key] = len(self.ids)
         return self.ids[key]
